@@ -27,6 +27,7 @@ import (
 
 	"github.com/apache/skywalking-banyandb/banyand/internal/verifdrv/drv"
 	"github.com/apache/skywalking-banyandb/banyand/measure"
+	"github.com/apache/skywalking-banyandb/banyand/trace"
 	"github.com/apache/skywalking-banyandb/pkg/logger"
 )
 
@@ -189,6 +190,14 @@ func main() {
 		runHistory(os.Args[2], fresh, os.Args[4:])
 		return
 	}
+	if len(os.Args) > 1 && os.Args[1] == "trrun" {
+		fresh, err := strconv.ParseUint(os.Args[3], 16, 64)
+		if err != nil {
+			panic(err)
+		}
+		traceRun(os.Args[2], fresh, os.Args[4:])
+		return
+	}
 	if len(os.Args) > 1 && os.Args[1] == "segrun" {
 		k, _ := strconv.Atoi(os.Args[3])
 		segRun(os.Args[2], k)
@@ -197,6 +206,9 @@ func main() {
 	drv.Run(func(f []string) string {
 		if len(f) >= 2 && f[0] == "rec" {
 			return recoverDir(f)
+		}
+		if len(f) >= 2 && f[0] == "trrec" {
+			return traceRecover(f)
 		}
 		if len(f) >= 2 && f[0] == "segrec" {
 			return segRecover(f)
@@ -320,5 +332,57 @@ func segRecover(f []string) string {
 		res += " cont:segs=" + segList(db3)
 		_ = db3.Close()
 	}
+	return res
+}
+
+// ---------------------------------------------------------------------------------------------------------
+// trace-table stream: the real trace tsTable with one secondary index; ops B<n> batch | F flush.
+
+func traceRun(root string, fresh uint64, ops []string) {
+	v := trace.VT04Open(root, fresh)
+	v.Start()
+	fmt.Printf("open fresh=%s epoch=%x\n", drv.B01(v.Fresh), v.Epoch)
+	for i, op := range ops {
+		mark(fmt.Sprintf("%d:%s", i, op))
+		res := drv.Safe(func() string {
+			switch op[0] {
+			case 'B':
+				n, _ := strconv.Atoi(op[1:])
+				v.Batch(n)
+				return "ok"
+			case 'F':
+				r := v.Flush()
+				if !v.WaitClean() {
+					return "TIMEOUT"
+				}
+				return drv.B01(r)
+			}
+			return "bad-op"
+		})
+		fmt.Printf("%s %s %s\n", op, res, drv.Safe(v.Dump))
+	}
+	mark("end")
+	v.Close()
+}
+
+// traceRecover: trrec <dir> [cont]  ->  OK fresh=.. epoch=.. <dump> tree=<listing> [cont:<dump after one more batch+flush and a restart>]
+func traceRecover(f []string) string {
+	dir := f[1]
+	v := trace.VT04Open(dir, freshEpoch)
+	d := v.Dump()
+	res := fmt.Sprintf("OK fresh=%s epoch=%x %s tree=%s", drv.B01(v.Fresh), v.Epoch, d, listTree(dir))
+	if len(f) > 2 && f[2] == "cont" {
+		v.Start()
+		started := drv.Safe(v.Dump) // the secondary index is open now: what does it serve?
+		v.Batch(99)
+		v.Flush()
+		v.WaitClean()
+		v.Close()
+		v2 := trace.VT04Open(dir, freshEpoch)
+		res += " cont:" + drv.Safe(v2.Dump) + " started:" + started
+		v2.Close()
+		return res
+	}
+	v.Close()
 	return res
 }
